@@ -464,6 +464,52 @@ def spell(kind, name, directory):
     raise ValueError(kind)
 
 
+PUBLISHED = 'http://example.test/schemas/'        # never fetched: the uri_mapper relocates it to fixture files
+
+
+def published(name):
+    """The 'published' URL of a fixture file, as it is written in a schemaLocation."""
+    return PUBLISHED + quote(name)
+
+
+# (includes of main, extra includes of p2): 'F' = p1 by file name, 'P' = p1 by its published URL, '2' = p2
+MAPPED_SCENARIOS = {
+    'once-main': ('P2', ''),           # a single mapped reference
+    'once-p2': ('2', 'P'),
+    'p2-pub': ('F2', 'P'),             # by file name first, then by the mapped URL
+    'main-pub': ('P2', 'F'),           # by the mapped URL first, then by file name
+    'p2-first-pub': ('2F', 'P'),
+    'both-pub': ('P2', 'P'),
+    'twice-main': ('FP2', ''),         # both spellings in the main document itself
+    'twice-main-rev': ('PF2', ''),
+    'p2-pub-too': ('F2P', 'P'),        # file name, then the mapped URL from two documents
+}
+
+
+def files_mapped(doc, scenario, directory, plain=False):
+    """Alternate split into p1/p2 where p1 is referred by file name and/or by its published URL.
+    plain=True gives the counterpart of the scenario written with file names only."""
+    main_inc, p2_inc = MAPPED_SCENARIOS[scenario]
+    if plain:
+        main_inc, p2_inc = main_inc.replace('P', 'F'), p2_inc.replace('P', 'F')
+    n = len(doc.globals)
+    assign = tuple(i % 2 for i in range(n))
+    loc = {'F': PART_NAMES[0], 'P': published(PART_NAMES[0]), '2': PART_NAMES[1]}
+    pp = ''.join(s for _, s in part_prolog(doc))
+    files = {}
+    for part in range(2):
+        extra = ''.join(include(loc[c], doc.xsp) for c in p2_inc) if part == 1 else ''
+        files[PART_NAMES[part]] = doc.head + pp + extra + \
+            ''.join(t for i, (_, _, t) in enumerate(doc.globals) if assign[i] == part) + doc.tail
+    files['main.xsd'] = _main_with_includes(doc, ''.join(include(loc[c], doc.xsp) for c in main_inc), ())
+    return files
+
+
+def mapping_for(directory):
+    """published URL -> fixture file, for every file a mapped arrangement may refer to."""
+    return {published(name): os.path.join(directory, name) for name in PART_NAMES[:2] + ('main.xsd',)}
+
+
 def xml_attr(value):
     return value.replace('&', '&amp;').replace('<', '&lt;').replace('"', '&quot;')
 
